@@ -9,7 +9,7 @@ copy / assign the `GlobalGraph` base and then the cached flags, member by member
   id counters, node table, edge table, root; the observer set of the copy is empty (as repaired in
   C14 round 2).  Then `isValid_` (and `isRooted_`) are copied: the flags travel with the tables
   they were computed from.
-* assignment: `GlobalGraph::operator=` (:41-65): nothing at all on self-assignment; otherwise the
+* assignment: `GlobalGraph::operator=` (:41-69): nothing at all on self-assignment; otherwise the
   same members are overwritten, the target's own observers are told that every former edge and
   node is gone, and — as repaired (findings/C15.json) — `topologyHasChanged_()` is called; then the
   compiler-generated part assigns the flags of the source.
